@@ -158,9 +158,9 @@ theorem lookup_foldl_dictSet (parsed : List Out) (acc : DMap) (f : FileId) :
     · have : ¬ f = o.src := fun a => h a.symm
       simp [h, this]
 
-theorem lookup_parsedResult (parsed : List Out) (f : FileId) :
-    (parsedResult parsed).lookup f = parsedLast parsed f := by
-  unfold parsedResult parsedLast
+theorem lookup_parsedResultOld (parsed : List Out) (f : FileId) :
+    (parsedResultOld parsed).lookup f = parsedLast parsed f := by
+  unfold parsedResultOld parsedLast
   rw [lookup_foldl_dictSet]; rfl
 
 theorem foldl_last_of_not_mem (parsed : List Out) (f : FileId) (init : Option (List D))
@@ -212,34 +212,244 @@ theorem parsedLast_of_equalLists (parsed : List Out) (f : FileId) (hE : EqualLis
   · exact absurd (List.mem_map.mpr ⟨o, ho, hs⟩) h2
   · rw [he, hE o' ho' o ho (hs'.trans hs.symm)]
 
+/-! ### the fixed per-source accumulation -/
+
+theorem accum_nil (ds : List D) : accum [] ds = ds := by
+  simp [accum]
+
+theorem lookup_foldl_parsedStep (parsed : List Out) (acc : DMap) (f : FileId) :
+    (parsed.foldl parsedStep acc).lookup f =
+      parsed.foldl (fun a o => if o.src = f then some (accum (a.getD []) o.ds) else a) (acc.lookup f) := by
+  induction parsed generalizing acc with
+  | nil => rfl
+  | cons o t ih =>
+    simp only [List.foldl_cons]
+    rw [ih]
+    congr 1
+    unfold parsedStep
+    by_cases h : o.src = f
+    · subst h
+      cases hl : acc.lookup o.src <;> simp [lookup_dictSet]
+    · have h' : ¬ f = o.src := fun a => h a.symm
+      cases hl : acc.lookup o.src <;> simp [lookup_dictSet, h, h']
+
+theorem foldl_list_of_not_mem (parsed : List Out) (f : FileId) (init : List D) (h : f ∉ srcs parsed) :
+    parsed.foldl (fun l o => if o.src = f then accum l o.ds else l) init = init := by
+  induction parsed generalizing init with
+  | nil => rfl
+  | cons o t ih =>
+    simp only [srcs, List.map_cons, List.mem_cons, not_or] at h
+    have h1 : ¬ o.src = f := fun a => h.1 a.symm
+    simp only [List.foldl_cons, h1, if_false]
+    exact ih init h.2
+
+theorem foldl_opt_eq (parsed : List Out) (f : FileId) (a : Option (List D)) :
+    parsed.foldl (fun a o => if o.src = f then some (accum (a.getD []) o.ds) else a) a =
+      if f ∈ srcs parsed then
+        some (parsed.foldl (fun l o => if o.src = f then accum l o.ds else l) (a.getD []))
+      else a := by
+  induction parsed generalizing a with
+  | nil => simp [srcs]
+  | cons o t ih =>
+    simp only [List.foldl_cons]
+    rw [ih]
+    by_cases h : o.src = f
+    · simp only [h, if_true, srcs, List.map_cons, List.mem_cons, true_or, Option.getD_some]
+      by_cases h2 : f ∈ srcs t
+      · simp only [srcs] at h2; simp [h2]
+      · rw [foldl_list_of_not_mem t f _ h2]
+        simp only [srcs] at h2; simp [h2]
+    · have h' : ¬ f = o.src := fun e => h e.symm
+      simp [h, h', srcs]
+
+theorem lookup_parsedResult (parsed : List Out) (f : FileId) :
+    (parsedResult parsed).lookup f = if f ∈ srcs parsed then some (parsedUnion parsed f) else none := by
+  unfold parsedResult parsedUnion
+  rw [lookup_foldl_parsedStep, foldl_opt_eq]
+  simp
+
+theorem mergedAt_parsedResult (parsed : List Out) (f : FileId) :
+    mergedAt (parsedResult parsed) f = parsedUnion parsed f := by
+  unfold mergedAt
+  rw [lookup_parsedResult]
+  by_cases h : f ∈ srcs parsed
+  · simp [h]
+  · simp only [h, if_false, Option.getD_none]
+    unfold parsedUnion
+    rw [foldl_list_of_not_mem parsed f [] h]
+
+theorem keys_parsedResult (parsed : List Out) (f : FileId) :
+    f ∈ keys (parsedResult parsed) ↔ f ∈ srcs parsed := by
+  rw [← lookup_isSome_iff_mem_keys, lookup_parsedResult]
+  by_cases h : f ∈ srcs parsed <;> simp [h]
+
+theorem keys_parsedResultOld (parsed : List Out) (f : FileId) :
+    f ∈ keys (parsedResultOld parsed) ↔ f ∈ srcs parsed := by
+  rw [← lookup_isSome_iff_mem_keys, lookup_parsedResultOld]
+  have := parsedLast_none_iff parsed f
+  cases h : parsedLast parsed f with
+  | none => simp [this.mp h]
+  | some l =>
+    simp only [Option.isSome_some, true_iff]
+    apply Classical.byContradiction
+    intro hn
+    rw [this.mpr hn] at h; cases h
+
+/-- the accumulated list only holds diagnostics some output of `f` carried (no hypothesis) -/
+theorem mem_foldl_accum (parsed : List Out) (f : FileId) (init : List D) (d : D)
+    (h : d ∈ parsed.foldl (fun l o => if o.src = f then accum l o.ds else l) init) :
+    d ∈ init ∨ d ∈ parsedAll parsed f := by
+  induction parsed generalizing init with
+  | nil => left; exact h
+  | cons o t ih =>
+    simp only [List.foldl_cons] at h
+    rcases ih _ h with h1 | h1
+    · by_cases hs : o.src = f
+      · simp only [hs, if_true, accum, List.mem_append, List.mem_filter] at h1
+        rcases h1 with h1 | h1
+        · left; exact h1
+        · right; simp [parsedAll, hs, h1.1]
+      · simp only [hs, if_false] at h1; left; exact h1
+    · right
+      simp only [parsedAll, List.flatMap_cons, List.mem_append] at h1 ⊢
+      right; exact h1
+
+theorem dedupInto_append (acc xs ys : List D) :
+    dedupInto acc (xs ++ ys) = dedupInto (dedupInto acc xs) ys := by
+  induction xs generalizing acc with
+  | nil => rfl
+  | cons d t ih =>
+    simp only [List.cons_append, dedupInto]
+    split
+    · exact ih acc
+    · exact ih _
+
+theorem dedupInto_eq_accum (acc ds : List D) (hn : (ds.map (·.oid)).Nodup) :
+    dedupInto acc ds = accum acc ds := by
+  induction ds generalizing acc with
+  | nil => simp [dedupInto, accum]
+  | cons d t ih =>
+    have hn' : d.oid ∉ t.map (·.oid) ∧ (t.map (·.oid)).Nodup := List.nodup_cons.mp hn
+    simp only [dedupInto]
+    split
+    · rename_i hc
+      rw [ih acc hn'.2]
+      have hc' : d.oid ∈ acc.map (·.oid) := by simpa using hc
+      obtain ⟨a, ha, he⟩ := List.mem_map.mp hc'
+      simp only [accum, List.filter_cons, hc, Bool.not_true, Bool.false_eq_true, if_false]
+    · rename_i hc
+      rw [ih _ hn'.2]
+      simp only [accum, List.filter_cons, hc, Bool.not_false, if_true, List.append_assoc, List.cons_append,
+        List.nil_append]
+      congr 2
+      apply List.filter_congr
+      intro x hx
+      have hne : ¬ x.oid = d.oid := by
+        intro e
+        exact hn'.1 (List.mem_map.mpr ⟨x, hx, e⟩)
+      simp [hne]
+
+theorem foldl_accum_eq_dedup (parsed : List Out) (f : FileId) (init : List D) (hU : OutputsNodup parsed) :
+    parsed.foldl (fun l o => if o.src = f then accum l o.ds else l) init =
+      dedupInto init (parsedAll parsed f) := by
+  induction parsed generalizing init with
+  | nil => simp [parsedAll, dedupInto]
+  | cons o t ih =>
+    have hU' : OutputsNodup t := fun x hx => hU x (List.mem_cons_of_mem _ hx)
+    simp only [List.foldl_cons, parsedAll, List.flatMap_cons]
+    rw [ih _ hU']
+    by_cases hs : o.src = f
+    · simp only [hs, if_true]
+      rw [dedupInto_append, dedupInto_eq_accum _ _ (hU o List.mem_cons_self)]
+      rfl
+    · simp only [hs, if_false, List.nil_append]
+      rfl
+
+theorem mem_dedupInto (acc ds : List D) (d : D) (h : d ∈ dedupInto acc ds) : d ∈ acc ∨ d ∈ ds := by
+  induction ds generalizing acc with
+  | nil => left; exact h
+  | cons x t ih =>
+    simp only [dedupInto] at h
+    split at h
+    · rcases ih acc h with h1 | h1
+      · left; exact h1
+      · right; exact List.mem_cons_of_mem _ h1
+    · rcases ih _ h with h1 | h1
+      · simp only [List.mem_append, List.mem_singleton] at h1
+        rcases h1 with h1 | h1
+        · left; exact h1
+        · right; rw [h1]; exact List.mem_cons_self
+      · right; exact List.mem_cons_of_mem _ h1
+
+theorem acc_subset_dedupInto (acc ds : List D) (d : D) (h : d ∈ acc) : d ∈ dedupInto acc ds := by
+  induction ds generalizing acc with
+  | nil => exact h
+  | cons x t ih =>
+    simp only [dedupInto]
+    split
+    · exact ih acc h
+    · exact ih _ (List.mem_append_left _ h)
+
+theorem dedupInto_complete (acc ds : List D) (d : D) (h : d ∈ ds) :
+    ∃ d' ∈ dedupInto acc ds, d'.oid = d.oid := by
+  induction ds generalizing acc with
+  | nil => cases h
+  | cons x t ih =>
+    simp only [dedupInto]
+    rcases List.mem_cons.mp h with h1 | h1
+    · subst h1
+      split
+      · rename_i hc
+        have hc' : d.oid ∈ acc.map (·.oid) := by simpa using hc
+        obtain ⟨d', hd', he⟩ := List.mem_map.mp hc'
+        exact ⟨d', acc_subset_dedupInto acc t d' hd', he⟩
+      · exact ⟨d, acc_subset_dedupInto _ t d (by simp), rfl⟩
+    · split
+      · exact ih acc h1
+      · exact ih _ h1
+
+theorem dedupInto_nodup (acc ds : List D) (h : (acc.map (·.oid)).Nodup) :
+    ((dedupInto acc ds).map (·.oid)).Nodup := by
+  induction ds generalizing acc with
+  | nil => exact h
+  | cons x t ih =>
+    simp only [dedupInto]
+    split
+    · exact ih acc h
+    · rename_i hc
+      apply ih
+      simp only [List.map_append, List.map_cons, List.map_nil]
+      rw [List.nodup_append]
+      refine ⟨h, by simp, ?_⟩
+      intro a ha b hb
+      simp only [List.mem_singleton] at hb
+      subst hb
+      intro e
+      subst e
+      exact hc (by simpa using ha)
+
 /-! ### the whole merge -/
 
-theorem lookup_merge (parsed : List Out) (orphan : DMap) (order : List FileId) (others : List DMap)
+theorem lookup_mergeFrom (base : DMap) (orphan : DMap) (order : List FileId) (others : List DMap)
     (f : FileId) (hn : order.Nodup) :
-    (mergeDiagnostics parsed orphan order others).lookup f =
-      if f ∈ srcs parsed ∨ f ∈ keys orphan ∨ f ∈ order then
-        some ((parsedLast parsed f).getD [] ++ getAll orphan f ++
+    (mergeFrom base orphan order others).lookup f =
+      if f ∈ keys base ∨ f ∈ keys orphan ∨ f ∈ order then
+        some ((base.lookup f).getD [] ++ getAll orphan f ++
               (if f ∈ order then extendFrom others f else []))
       else none := by
-  unfold mergeDiagnostics
-  rw [lookup_mergeOthers _ _ _ _ hn, lookup_addOrphan, lookup_parsedResult]
-  have hg : f ∉ keys orphan → getAll orphan f = [] := by
-    intro h
-    unfold getAll
-    rw [List.flatMap_eq_nil_iff]
-    intro e he
-    have : ¬ e.1 = f := fun a => h (a ▸ List.mem_map.mpr ⟨e, he, rfl⟩)
-    simp [this]
-  by_cases h1 : f ∈ srcs parsed
+  unfold mergeFrom
+  rw [lookup_mergeOthers _ _ _ _ hn, lookup_addOrphan]
+  have hg := getAll_of_not_mem_keys orphan f
+  by_cases h1 : f ∈ keys base
   · by_cases h2 : f ∈ keys orphan
     · by_cases h3 : f ∈ order <;> simp [h1, h2, h3]
     · by_cases h3 : f ∈ order
       · simp [h1, h2, h3, hg h2]
-      · have hp : parsedLast parsed f ≠ none := fun a => (parsedLast_none_iff parsed f).mp a h1
-        cases hq : parsedLast parsed f with
+      · have hp : base.lookup f ≠ none := fun a => (lookup_eq_none_iff base f).mp a h1
+        cases hq : base.lookup f with
         | none => exact absurd hq hp
         | some l => simp [h1, h2, h3, hg h2]
-  · have hp := (parsedLast_none_iff parsed f).mpr h1
+  · have hp := (lookup_eq_none_iff base f).mpr h1
     by_cases h2 : f ∈ keys orphan
     · by_cases h3 : f ∈ order <;> simp [h1, h2, h3, hp]
     · by_cases h3 : f ∈ order <;> simp [h1, h2, h3, hp, hg h2]
@@ -439,6 +649,24 @@ theorem mem_getAll_of_lookup (m : DMap) (f : FileId) (l : List D) (h : m.lookup 
       left; simp [hd]
     · simp only [hk, if_false] at h
       right; exact ih h d hd
+
+theorem getAll_eq_lookup_of_nodup (m : DMap) (f : FileId) (h : (keys m).Nodup) :
+    getAll m f = (m.lookup f).getD [] := by
+  induction m with
+  | nil => rfl
+  | cons e t ih =>
+    obtain ⟨k, v⟩ := e
+    have h' : k ∉ keys t ∧ (keys t).Nodup := List.nodup_cons.mp h
+    rw [lookup_cons_eq]
+    simp only [getAll, List.flatMap_cons]
+    by_cases hk : f = k
+    · subst hk
+      have := getAll_of_not_mem_keys t f h'.1
+      simp only [getAll] at this
+      simp [this]
+    · have hk' : ¬ k = f := fun a => hk a.symm
+      simp only [hk, hk', if_false, List.nil_append]
+      exact ih h'.2
 
 /-! ### attribution -/
 
